@@ -13,11 +13,17 @@ Streams
             in a displayed comment points, if anywhere, at the page of a selected entity.
   e2e     : `ford.main` in-process (search on, graphs off in quick); every *.html and
             search/search_database.json is scanned for the per-entity tracer words.
-            Correspondence: set of tracers found anywhere == model `shownIds`, page files == model pages.
+            Correspondence: set of tracers found anywhere == model `shownIds`, page files == model pages
+            (`sitePageIds`: page lists of the pruned units + the namelists collected when the files were read),
+            and page by page the tracers in the file == what the model says that page shows (`pagesShown`).
             Property oracle: no tracer of an unselected entity anywhere; a selected entity's tracer on
             its parent's page; own page exists; every internal href resolves to an existing page; every
             rendered occurrence of a generated `[[...]]` link (attributed to its comment by a marker word)
             points at an existing page of a selected entity.
+Round 3: a third generator pass (`c05_gen.extend`) adds block data units, common blocks, namelists, interface bodies
+inside generic interfaces, declared function results and type extension to three of four cases; the model receives
+`ext` per node and applies the inheritance step of `correlate` itself; oracle failures are classified per entity,
+clause (leak / page / missing) and page.
 """
 from __future__ import annotations
 
@@ -35,9 +41,10 @@ from .common import Driver, Report, lean_prove
 PROP = "C05"
 
 LISTS = ["modules", "submodules", "programs", "blockdata", "functions", "subroutines", "modprocedures",
-         "types", "interfaces", "absinterfaces", "variables", "boundprocs", "finalprocs", "enums", "args"]
+         "types", "interfaces", "absinterfaces", "variables", "boundprocs", "finalprocs", "enums", "args",
+         "common", "namelists"]
 PAGE_LISTS = ["types", "absinterfaces", "procedures", "submodprocedures", "modules", "submodules", "programs",
-              "blockdata"]
+              "blockdata", "namelists"]
 WORD_CODE = G.WORD_CODE
 
 
@@ -55,62 +62,117 @@ def spec_display_set(words, in_force, is_file):
     return known if known else in_force
 
 
-ALWAYS = ("arg", "finalproc")  # part of the parent's own description; carry no accessibility
+# part of the parent's own description; carry no accessibility: dummy arguments, the function result, final
+# procedures (and the interface bodies written inside a generic interface block, see `own_description`)
+ALWAYS = ("arg", "finalproc", "retvar")
+ARGLIKE = ("arg", "retvar")
+# a common block has no accessibility of its own (`display` cannot deselect it; `hide_undoc` and
+# `proc_internals` can)
+NO_ACCESS = ("common",)
 
 
-def spec_selected(P):
-    """-> (selected ids, referenced ids): entities selected through the tree, and procedures (with their dummy
-    arguments) that a selected binding / generic interface / final displays as its own description."""
+def own_description(parent, c):
+    return c["kind"] in ALWAYS or (parent["kind"] == "generic" and c["kind"] in G.PROC_KINDS)
+
+
+def spec_selected(P, below=None, inherited=None):
+    """-> (selected ids, referenced ids): entities selected through the tree, and what a selected entity displays
+    as part of its own description: the procedures (with their dummy arguments and result) a binding / generic
+    interface / final names, the variables a namelist groups, the members an extending type inherits.
+    `below` (optional dict) receives id -> display set in force below that selected entity, `inherited` (optional
+    set) the ids of the members that selected extending types display."""
     cfg = P["config"]
     proj = frozenset() if "none" in cfg["display"] else frozenset(w for w in cfg["display"] if w in G.WORDS)
     sel = set()
+    if below is None:
+        below = {}
 
-    def visit(e, inforce, parent_is_proc=False):
+    def visit(e, inforce, parent=None):
         """e is selected; inforce = display set in force at e's parent"""
         sel.add(e["id"])
-        if e["kind"] in G.PROC_KINDS and parent_is_proc:
-            # an internal procedure has no page of its own: its description is its doc and dummy arguments
-            sel.update(c["id"] for c in e["children"] if c["kind"] == "arg")
+        if e["kind"] in G.PROC_KINDS and parent is not None and parent["kind"] in G.PROC_KINDS + ("generic",):
+            # a procedure inside a procedure or inside a generic interface block has no page of its own: its
+            # description is its doc, its dummy arguments and its result
+            sel.update(c["id"] for c in e["children"] if c["kind"] in ARGLIKE)
             return
-        parent_is_proc = e["kind"] in G.PROC_KINDS
         mine = spec_display_set(e["disp"], inforce, e["kind"] == "file")
+        below[e["id"]] = mine
         off = e["kind"] in G.PROC_KINDS and not (e["pint"] if e["pint"] is not None else cfg["proc_internals"])
         for c in e["children"]:
-            if e["kind"] == "file" or c["kind"] in ALWAYS:
-                visit(c, mine, parent_is_proc)
+            if e["kind"] == "file" or own_description(e, c):
+                visit(c, mine, e)
             elif off:
                 continue
-            elif c["perm"] in mine and (c["doc"] or not cfg["hide_undoc"]):
-                visit(c, mine, parent_is_proc)
+            elif (c["kind"] in NO_ACCESS or c["perm"] in mine) and (c["doc"] or not cfg["hide_undoc"]):
+                visit(c, mine, e)
 
     for f in P["files"]:
         visit(f, proj)
     byid = G.index(P)
     ref = set()
+
+    def refer(r):
+        ref.add(r)
+        ref.update(c["id"] for c in byid[r]["children"] if c["kind"] in ARGLIKE)
+
     for i in sel:
         for r in byid[i]["refs"]:
-            ref.add(r)
-            ref.update(c["id"] for c in byid[r]["children"] if c["kind"] == "arg")
+            refer(r)
+    # an extending type displays the members it inherits under the display options in force in *it*
+    for t, members in G.inherited_members(P).items():
+        if t not in sel or t not in below:
+            continue
+        for i in members:
+            m = byid[i]
+            if m["perm"] in below[t] and (m["doc"] or not cfg["hide_undoc"]):
+                ref.add(i)
+                if inherited is not None:
+                    inherited.add(i)
+                for r in m["refs"]:
+                    refer(r)
     return sel, ref
 
 
 def has_own_page(e, byid):
     k = e["kind"]
-    if k in ("file", "module", "program", "submodule"):
+    if k in ("file", "module", "program", "submodule", "blockdata"):
         return True
     par = byid.get(e["_parent"])
     if par is None:
         return False
     if par["kind"] == "file":
         return True
-    return par["kind"] in ("module", "program", "submodule") and k in ("subroutine", "function", "type", "generic",
-                                                                         "iface", "absint", "modproc")
+    if k == "namelist":
+        # a namelist of a program, or of a procedure that has a page (module-level namelists are listed on
+        # the module's page)
+        return par["kind"] == "program" or (par["kind"] in G.PROC_KINDS and has_own_page(par, byid))
+    return par["kind"] in ("module", "program", "submodule", "blockdata") and k in (
+        "subroutine", "function", "type", "generic", "iface", "absint", "modproc")
 
 
 # --------------------------------------------------------------------------- classification of failing inputs
 
-def classify(P, eid, what, variant_is_asis=True):
-    """Known-finding class of an oracle failure about entity `eid`, or None."""
+SEARCH_DB = "search/search_database.json"
+
+
+def nearest_page(e, byid):
+    """page of the nearest ancestor (not the entity itself) that has one"""
+    anc = byid.get(e["_parent"])
+    while anc is not None and not has_own_page(anc, byid):
+        anc = byid.get(anc["_parent"])
+    return page_of(anc) if anc is not None else None
+
+
+def namelist_collected(n, byid):
+    """FORD writes a page for this namelist (`Project.namelists` is filled when the file is read, from programs
+    and from procedures that stand directly in a file / module / submodule / program)"""
+    return has_own_page(n, byid)
+
+
+def classify(P, eid, what, mode="leak", page=None, sel=None, ref=None):
+    """Known-finding class of an oracle failure about entity `eid`, or None.  `mode`: 'leak' (documentation of
+    an unselected entity is kept / shown, on `page` if given), 'page' (a page exists for an unselected entity),
+    'missing' (a selected entity is not described / has no page)."""
     byid = G.index(P)
     e = byid[eid]
     chain = []
@@ -120,12 +182,63 @@ def classify(P, eid, what, variant_is_asis=True):
         cur = byid.get(cur["_parent"])
     if any(c["kind"] in ("enum", "enumerator") for c in chain):
         return "C05-enum-never-filtered"
+    if sel is None:
+        sel, ref = spec_selected(P)
+    par = byid.get(e["_parent"])
+    if e["kind"] == "namelist":
+        if mode in ("leak", "page") and eid not in sel:
+            ok = {page_of(e), nearest_page(e, byid), SEARCH_DB, "lists/namelists.html", None}
+            if page in ok:
+                return "C05-namelist-never-filtered"
+        if mode == "missing" and eid in sel and par is not None and par["kind"] in ("module", "submodule"):
+            return "C05-module-namelist-not-described"
+    if mode == "leak" and eid not in sel:
+        # a variable shown in the variable table of a namelist that should not be there itself
+        for n in byid.values():
+            if (eid not in (ref or ()) and n["kind"] == "namelist" and eid in n["refs"] and n["id"] not in sel
+                    and namelist_collected(n, byid)):
+                if page in (page_of(n), nearest_page(n, byid), SEARCH_DB, None):
+                    return "C05-namelist-never-filtered"
+        # a common block, or a variable that is a member of one
+        if e["kind"] == "common" or (par is not None and par["kind"] == "common"):
+            if page in (nearest_page(e, byid), SEARCH_DB, None):
+                return "C05-common-never-filtered"
     f = chain[-1]
     if f["kind"] == "file" and f["disp"] is not None:
         cfg = P["config"]
         proj = frozenset() if "none" in cfg["display"] else frozenset(w for w in cfg["display"] if w in G.WORDS)
         if spec_display_set(f["disp"], proj, True) != proj:
             return "C05-file-display-not-inherited"
+    return None
+
+
+def classify_href(P, rel, href, sel):
+    """Known-finding class of `page rel carries href, which does not exist`, or None.
+    C05-inherited-binding-links-to-unselected-type: the href names the page of a type that is not selected, `rel`
+    is the page of (or the page that summarises) a selected type that extends it - directly or through other
+    types - and thereby carries one of its non-private bindings, whose name FORD links to the declaring type."""
+    byid = G.index(P)
+    tgt = os.path.normpath(os.path.join(os.path.dirname(rel), href.split("#")[0]))
+    inh = G.inherited_members(P)
+    for t1, members in inh.items():
+        e1 = byid[t1]
+        if t1 not in sel or rel not in (page_of(e1) if has_own_page(e1, byid) else None, nearest_page(e1, byid)):
+            continue
+        for i in members:
+            m = byid[i]
+            t0 = byid[m["_parent"]]
+            if m["kind"] == "boundproc" and t0["id"] not in sel and has_own_page(t0, byid) and tgt == page_of(t0):
+                return "C05-inherited-binding-links-to-unselected-type"
+    # C05-blockdata-type-visible-before-prune: the href names the page of an unselected type of a block data unit
+    # (`FortranBlockData.correlate` marked it visible) and stands on the page of that unit or of a type of the
+    # unit that extends it, or in the list of all types (`extends(...)`, column "Extends")
+    for t0 in byid.values():
+        par = byid.get(t0["_parent"])
+        if t0["kind"] != "type" or par is None or par["kind"] != "blockdata" or t0["id"] in sel or tgt != page_of(t0):
+            continue
+        for t1 in par["children"]:
+            if t1["kind"] == "type" and t1.get("ext") == t0["id"] and t1["id"] in sel and rel in (page_of(t1), page_of(par), "lists/types.html"):
+                return "C05-blockdata-type-visible-before-prune"
     return None
 
 
@@ -250,11 +363,17 @@ def walk_objects(proj, keys, rep_unknown, objs=None):
         holder = obj
         if type(obj).__name__ == "FortranModuleProcedureInterface":
             holder = obj.procedure
+        if type(obj).__name__ == "FortranNamelist":
+            return  # `variables` of a namelist are references to variables of the enclosing scopes
         for l in LISTS:
             for ch in getattr(holder, l, None) or []:
                 if isinstance(ch, str):
                     continue
                 visit(ch, l, obj)
+        # the declared result of a function (`result(r)`; an undeclared one is called like the function)
+        rv = getattr(holder, "retvar", None)
+        if rv is not None and not isinstance(rv, str) and getattr(rv, "name", None) != getattr(holder, "name", None):
+            visit(rv, "retvar", obj)
 
     for f in proj.files:
         visit(f, "files", None)
@@ -380,9 +499,13 @@ def model_batch(drv, Ps, variant):
         if r[0] != "ok":
             out.append(None)
         else:
-            r = r + [""] * (5 - len(r))
+            r = r + [""] * (6 - len(r))
+            per_page = {}
+            for ent in [x for x in r[5].split(";") if x]:
+                pg, _, ids = ent.partition(":")
+                per_page[int(pg)] = sorted({int(x) for x in ids.split(".") if x})
             out.append({"survivors": parse_ids(r[1]), "visible": parse_ids(r[2]), "pages": parse_ids(r[3]),
-                        "shown": parse_ids(r[4])})
+                        "shown": parse_ids(r[4]), "per_page": per_page})
     # the `[[name]]` links of the doc comments of the survivors, resolved by the model: as the link extension
     # is ("asis") and with the test that the target's page is written ("repaired")
     for lv in LINK_VARIANTS:
@@ -466,6 +589,27 @@ def features(P):
             f.add("internal-procedure")
         if e["kind"] == "type" and byid.get(e["_parent"], {}).get("kind") in G.PROC_KINDS:
             f.add("type-in-procedure")
+        pk = byid.get(e["_parent"], {}).get("kind")
+        if e["kind"] == "namelist":
+            f.add("namelist@" + ("procedure" if pk in G.PROC_KINDS else str(pk)))
+            if any(byid[r]["_parent"] != e["_parent"] and byid[byid[r]["_parent"]]["kind"] != "common" for r in e["refs"]):
+                f.add("namelist-groups-host-variable")
+        if e["kind"] == "common":
+            f.add("common@" + ("procedure" if pk in G.PROC_KINDS else str(pk)))
+        if e["kind"] == "blockdata":
+            f.add("blockdata")
+        if e["kind"] == "type" and pk == "blockdata":
+            f.add("type-in-blockdata")
+        if e["kind"] in G.PROC_KINDS and pk == "generic":
+            f.add("interface-body-in-generic")
+        if e["kind"] == "retvar":
+            f.add("declared-function-result")
+        if e["kind"] == "type" and e.get("ext") is not None:
+            f.add("type-extension")
+            if byid[e["ext"]].get("ext") is not None:
+                f.add("type-extension-chain")
+            if byid[e["ext"]]["perm"] != e["perm"]:
+                f.add("type-extension-across-permissions")
     return f
 
 
@@ -514,8 +658,16 @@ def micro_stream(ford, drv, rng, n, rep):
 def oracle_objects(P, post_ids, pages):
     """Property oracle on the object level: survivors == selected, page lists == selected with a page kind."""
     byid = G.index(P)
-    sel, _ = spec_selected(P)
+    inherited = set()
+    sel, _ = spec_selected(P, inherited=inherited)
     fails = []
+
+    def unrendered_namelist(i):
+        """a namelist of a module / submodule (or of a procedure without a page) is kept in `namelists`, but no
+        template renders more than its name there"""
+        e = byid[i]
+        return e["kind"] == "namelist" and not has_own_page(e, byid)
+
     def in_internal(i):
         """inside a procedure that has no page (only its dummy arguments are rendered)"""
         e = byid[i]
@@ -528,8 +680,10 @@ def oracle_objects(P, post_ids, pages):
         return False
 
     for i in sorted(set(post_ids) - sel):
-        if in_internal(i):
+        if in_internal(i) or unrendered_namelist(i):
             continue
+        if i in inherited:
+            continue  # kept in the lists of a selected extending type, under that type's display options
         fails.append((i, f"unselected {byid[i]['kind']} {byid[i]['name']} is kept in a list that the pages render"))
     for i in sorted(sel - set(post_ids)):
         fails.append((i, f"selected {byid[i]['kind']} {byid[i]['name']} was removed"))
@@ -571,11 +725,24 @@ def in_module(byid, t, mod):
     return any(a["kind"] == "module" and a["name"] == mod for a in chain_of(byid, t)[1:])
 
 
-def prune_stream(ford, drv, rng, n, rep, stats, d, lrng=None):
+def oracle_mode(why):
+    """which clause of the property a failure of `oracle_objects` is about"""
+    if "was removed" in why or why.startswith("no page"):
+        return "missing"
+    return "page" if why.startswith("page for") else "leak"
+
+
+def prune_stream(ford, drv, rng, n, rep, stats, d, lrng=None, xrng=None):
     Ps = []
     for k in range(n):
         risky = (k % 4 == 3)
         Ps.append(G.gen_project(rng, size=1.0 if k % 3 else 1.6, risky=risky))
+    if xrng is not None:
+        # round 3: block data, interface bodies in generic interfaces, function results, type extension in
+        # three of four cases; namelists and common blocks (never filtered: known findings) in every second
+        for k, P in enumerate(Ps):
+            if k % 4 != 0:
+                G.extend(P, xrng, gaps=(k % 2 == 1))
     if lrng is not None:
         for P in Ps:
             G.decorate(P, lrng)
@@ -615,15 +782,16 @@ def prune_stream(ford, drv, rng, n, rep, stats, d, lrng=None):
         if ma is None or mr is None:
             rep.tie_broken(f"prune stream: driver could not read case {k}")
             continue
-        cmp = lambda m: all(sorted(m[x]) == obs[x] for x in ("survivors", "visible", "pages"))
-        if {x: sorted(ma[x]) for x in obs} != {x: sorted(mr[x]) for x in obs}:
+        # (an inherited member stands in the model's tree once per type that carries it: compare as sets)
+        cmp = lambda m: all(sorted(set(m[x])) == obs[x] for x in ("survivors", "visible", "pages"))
+        if {x: sorted(set(ma[x])) for x in obs} != {x: sorted(set(mr[x])) for x in obs}:
             discriminating += 1
         for name, m in (("asis", ma), ("repaired", mr)):
             if cmp(m):
                 agree[name] += 1
             elif len(differ[name]) < 5:
                 differ[name].append({"stream": "prune", "case": k, "variant": name, "config": P["config"],
-                                     "model": {x: sorted(m[x]) for x in obs}, "impl": obs,
+                                     "model": {x: sorted(set(m[x])) for x in obs}, "impl": obs,
                                      "files": G.render_project(P), "project": G.strip(P)})
             # links: the model of this display variant x each variant of the link extension
             for lv in LINK_VARIANTS:
@@ -641,7 +809,7 @@ def prune_stream(ford, drv, rng, n, rep, stats, d, lrng=None):
                 ldiscr += 1
         # property oracle on the real objects
         for eid, why in oracle_objects(P, post_ids, im["pages"]):
-            cls = classify(P, eid, why)
+            cls = classify(P, eid, why, mode=oracle_mode(why))
             stats["oracle_failures"] += 1
             rep.failing_input({"stream": "prune", "case": k, "why": why, "config": P["config"],
                                "files": G.render_project(P), "entity": eid}, cls)
@@ -694,7 +862,8 @@ LISTING_RE = re.compile(r'''<div class="hl codehilite">.*?</pre></div>''', re.S)
 HREF_RE = re.compile(r"""href=["']([^"'#]+\.html)(?:#[^"']*)?["']""")
 PAGE_DIRS = {"type": "type", "subroutine": "proc", "function": "proc", "generic": "interface", "iface": "interface",
              "absint": "interface", "module": "module", "program": "program", "file": "sourcefile",
-             "submodule": "module", "modproc": "proc"}
+             "submodule": "module", "modproc": "proc", "blockdata": "blockdata", "namelist": "namelist"}
+ENTITY_DIRS = ("type", "proc", "interface", "module", "program", "sourcefile", "blockdata", "namelist")
 
 
 def run_e2e_case(args):
@@ -741,14 +910,14 @@ def run_e2e_case(args):
                 seen_links[key] = rel
         text = LK_RE.sub("", text)
         top = rel.split("/")[0]
-        if top in ("type", "proc", "interface", "module", "program", "sourcefile", "blockdata", "namelist"):
+        if top in ENTITY_DIRS:
             out["pages"].append(rel)
         for h in HREF_RE.findall(text):
             if "://" in h or h.startswith("mailto:"):
                 continue
             tgt = os.path.normpath(os.path.join(os.path.dirname(rel), h))
             # only links into the entity page directories are C05's business (lists/ etc. belong to C09)
-            if tgt.split("/")[0] not in ("type", "proc", "interface", "module", "program", "sourcefile"):
+            if tgt.split("/")[0] not in ENTITY_DIRS:
                 continue
             if tgt not in existing and len(out["bad_hrefs"]) < 20:
                 out["bad_hrefs"].append([rel, h])
@@ -781,7 +950,7 @@ def page_of(e):
     return f"{d}/{name}.html"
 
 
-def e2e_stream(ford, drv, rng, n, rep, stats, d, variant, graphs, workers, lrng=None):
+def e2e_stream(ford, drv, rng, n, rep, stats, d, variant, graphs, workers, lrng=None, xrng=None):
     import multiprocessing as mp
 
     Ps = []
@@ -791,9 +960,17 @@ def e2e_stream(ford, drv, rng, n, rep, stats, d, variant, graphs, workers, lrng=
         if not P["config"]["display"]:
             P["config"]["display"] = ["none"]
         Ps.append(P)
+    if xrng is not None:
+        for k, P in enumerate(Ps):
+            if k % 4 != 0:
+                G.extend(P, xrng, gaps=(k % 4 in (2, 3)))
     if lrng is not None:
         for P in Ps:
             G.decorate(P, lrng)
+    # the witnesses of the findings that only show on the generated site, as cases of their own (at positions
+    # with `incl_src` on and, for the second, the type summaries of the module page)
+    for fid, mk in E2E_WITNESSES:
+        Ps.append(mk())
     model = model_batch(drv, Ps, variant or "asis")
     # graphs are expensive: all cases in the thorough tier, every second case in the quick tier
     jobs = [(G.strip(P), str(d / f"e{k}"), graphs or k % 2 == 1, k % 2 == 0) for k, P in enumerate(Ps)]
@@ -833,28 +1010,41 @@ def e2e_stream(ford, drv, rng, n, rep, stats, d, variant, graphs, workers, lrng=
                 ncorr += 1
                 rep.tie_broken(f"correspondence e2e: page files differ from the model's pages on case {k}",
                                dict(base, model_pages=mpages, site_pages=sorted(res["pages"])))
+            # tracer words per page: what the model says each page shows == what the page file contains
+            for pid, ids in sorted(mo["per_page"].items()):
+                rel = page_of(byid[pid])
+                if rel is None or (byid[pid]["kind"] == "file" and not incl_src):
+                    continue
+                want_pg = sorted(set(ids) & documented)
+                got_pg = sorted(res["tracers"].get(rel, []))
+                stats["e2e_pages_compared"] = stats.get("e2e_pages_compared", 0) + 1
+                if want_pg != got_pg:
+                    ncorr += 1
+                    rep.tie_broken(f"correspondence e2e: tracer words on {rel} differ from what the model says the page shows (case {k})",
+                                   dict(base, page=rel, only_on_page=sorted(set(got_pg) - set(want_pg)),
+                                        only_in_model=sorted(set(want_pg) - set(got_pg))))
         # ---- property oracle
         sel, ref = spec_selected(P)
         fails = []
         for rel, ids in res["tracers"].items():
             for i in ids:
                 if i not in sel and i not in ref:
-                    fails.append((i, f"documentation text of unselected {byid[i]['kind']} {byid[i]['name']} appears in {rel}"))
+                    fails.append((i, f"documentation text of unselected {byid[i]['kind']} {byid[i]['name']} appears in {rel}", "leak", rel))
         incl_src = k % 2 == 0
         for i in sorted(sel & documented):
             e = byid[i]
             par = byid.get(e["_parent"])
             if e["kind"] == "file":
                 if incl_src and i not in res["tracers"].get(page_of(e), []):
-                    fails.append((i, f"documentation of file {e['name']} is not on {page_of(e)}"))
+                    fails.append((i, f"documentation of file {e['name']} is not on {page_of(e)}", "missing", page_of(e)))
                 continue
             if par["kind"] == "file":
                 par = None  # program units are described on their own page
             own = page_of(e) if has_own_page(e, byid) else None
             if own and i not in res["tracers"].get(own, []):
-                fails.append((i, f"selected {e['kind']} {e['name']} is not described on its own page {own}"))
+                fails.append((i, f"selected {e['kind']} {e['name']} is not described on its own page {own}", "missing", own))
             if own and own not in res["pages"]:
-                fails.append((i, f"selected {e['kind']} {e['name']} has no page {own}"))
+                fails.append((i, f"selected {e['kind']} {e['name']} has no page {own}", "missing", own))
             # described on its parent's page (the nearest ancestor that has a page)
             anc = par
             while anc is not None and not has_own_page(anc, byid):
@@ -862,16 +1052,16 @@ def e2e_stream(ford, drv, rng, n, rep, stats, d, variant, graphs, workers, lrng=
             if anc is not None:
                 pg = page_of(anc)
                 if i not in res["tracers"].get(pg, []):
-                    fails.append((i, f"selected {e['kind']} {e['name']} is not described on {pg}"))
+                    fails.append((i, f"selected {e['kind']} {e['name']} is not described on {pg}", "missing", pg))
             if i not in res["tracers"].get("search/search_database.json", []):
-                fails.append((i, f"selected {e['kind']} {e['name']} is missing from the search index"))
+                fails.append((i, f"selected {e['kind']} {e['name']} is missing from the search index", "missing", SEARCH_DB))
         for i in sorted(set(byid) - sel):
             e = byid[i]
             pg = page_of(e)
             if pg and pg in res["pages"] and PAGE_DIRS.get(e["kind"]):
-                fails.append((i, f"page {pg} exists for unselected {e['kind']} {e['name']}"))
+                fails.append((i, f"page {pg} exists for unselected {e['kind']} {e['name']}", "page", pg))
         for rel, h in res["bad_hrefs"]:
-            fails.append((None, f"{rel} links to {h}, which does not exist"))
+            fails.append((None, f"{rel} links to {h}, which does not exist", "link", rel))
         # links written in the generated comments, wherever the comment was rendered
         ok_pages = allowed_pages(P, sel, files=incl_src)
         lfails = []
@@ -896,8 +1086,11 @@ def e2e_stream(ford, drv, rng, n, rep, stats, d, variant, graphs, workers, lrng=
                     rep.tie_broken(f"correspondence e2e: link {lk} of the comment of {e['kind']} {e['name']} points at {tgt} on {rel}, "
                                    f"the model says {want_page} (case {k})", dict(base, entity=i, link=lk))
         seen_cls = set()
-        for eid, why in fails:
-            cls = classify(P, eid, why) if eid is not None else None
+        for eid, why, mode, pg in fails:
+            if eid is not None:
+                cls = classify(P, eid, why, mode=mode, page=pg, sel=sel, ref=ref)
+            else:
+                cls = classify_href(P, pg, why.split(" links to ")[1].split(",")[0], sel) if mode == "link" else None
             stats["oracle_failures"] += 1
             if (cls, eid) in seen_cls:
                 continue
@@ -974,6 +1167,88 @@ def witness_link_referenced():
     return {"config": {"display": ["public"], "proc_internals": False, "hide_undoc": False}, "files": [f]}
 
 
+def witness_namelist():
+    """module (default private), public subroutine with a private local variable and a namelist grouping it"""
+    g = G.Gen(random.Random(0))
+    f = g.new("file", "public", doc=False)
+    m = g.new("module", "public", default="private")
+    sb = g.new("subroutine", "public", explicit=True)
+    v = g.new("variable", "private", explicit=False)
+    nl = g.new("namelist", "private", explicit=False)
+    nl["refs"] = [v["id"]]
+    sb["children"] = [v, nl]
+    m["children"] = [sb]
+    f["children"] = [m]
+    return {"config": {"display": ["public"], "proc_internals": False, "hide_undoc": False}, "files": [f]}
+
+
+def witness_module_namelist():
+    g = G.Gen(random.Random(0))
+    f = g.new("file", "public", doc=False)
+    m = g.new("module", "public", default=None)
+    v = g.new("variable", "public", explicit=True)
+    nl = g.new("namelist", "public", explicit=False)
+    nl["refs"] = [v["id"]]
+    m["children"] = [v, nl]
+    f["children"] = [m]
+    return {"config": {"display": ["public"], "proc_internals": False, "hide_undoc": False}, "files": [f]}
+
+
+def witness_common():
+    g = G.Gen(random.Random(0))
+    f = g.new("file", "public", doc=False)
+    m = g.new("module", "public", default="private")
+    cb = g.new("common", "public", explicit=False)
+    v = g.new("variable", "private", explicit=False)
+    cb["children"] = [v]
+    m["children"] = [cb]
+    f["children"] = [m]
+    return {"config": {"display": ["public"], "proc_internals": False, "hide_undoc": False}, "files": [f]}
+
+
+def witness_inherited_binding():
+    """private type with a public binding, public type extending it"""
+    g = G.Gen(random.Random(0))
+    f = g.new("file", "public", doc=False)
+    m = g.new("module", "public", default="private")
+    t0 = g.new("type", "private", explicit=False)
+    b = g.new("boundproc", "public", explicit=True)
+    t1 = g.new("type", "public", explicit=True, ext=t0["id"])
+    c = g.new("component", "public", explicit=True)
+    sb = g.new("subroutine", "private", explicit=False)
+    a = g.new("arg", "private", explicit=False)
+    sb["children"] = [a]
+    b["refs"] = [sb["id"]]
+    t0["children"] = [b]
+    t1["children"] = [c]
+    m["children"] = [t0, t1, sb]
+    f["children"] = [m]
+    return {"config": {"display": ["public"], "proc_internals": False, "hide_undoc": False}, "files": [f]}
+
+
+def witness_blockdata_extends():
+    """block data unit: public type extending a private type of the same unit"""
+    g = G.Gen(random.Random(0))
+    f = g.new("file", "public", doc=False)
+    bd = g.new("blockdata", "public", default=None)
+    t0 = g.new("type", "private", explicit=True)
+    c = g.new("component", "public", explicit=False)
+    t1 = g.new("type", "public", explicit=False, ext=t0["id"])
+    c2 = g.new("component", "public", explicit=False)
+    t0["children"] = [c]
+    t1["children"] = [c2]
+    bd["children"] = [t0, t1]
+    f["children"] = [bd]
+    return {"config": {"display": ["public"], "proc_internals": False, "hide_undoc": False}, "files": [f]}
+
+
+# witnesses of the findings that only the generated site shows: run as extra cases of the e2e stream
+E2E_WITNESSES = (("C05-module-namelist-not-described", witness_module_namelist),
+                 ("C05-inherited-binding-links-to-unselected-type", witness_inherited_binding),
+                 ("C05-namelist-never-filtered", witness_namelist),
+                 ("C05-blockdata-type-visible-before-prune", witness_blockdata_extends))
+
+
 def replay_link_witnesses(ford, rep, d, stats):
     for fid, P in (("C05-link-to-unselected-bound-procedure", witness_link_binding()),
                    ("C05-link-inside-unselected-referenced-procedure", witness_link_referenced())):
@@ -992,7 +1267,8 @@ def replay_link_witnesses(ford, rep, d, stats):
 
 
 def replay_witnesses(ford, rep, d, variant, stats):
-    for fid, P in (("C05-file-display-not-inherited", witness_file_display()), ("C05-enum-never-filtered", witness_enum())):
+    for fid, P in (("C05-file-display-not-inherited", witness_file_display()), ("C05-enum-never-filtered", witness_enum()),
+                   ("C05-namelist-never-filtered", witness_namelist()), ("C05-common-never-filtered", witness_common())):
         im = impl_prune(ford, P, d)
         if "error" in im:
             rep.tie_broken(f"witness {fid}: implementation raised {im['error']}")
@@ -1002,7 +1278,7 @@ def replay_witnesses(ford, rep, d, variant, stats):
         stats["witness_" + fid] = "fails" if fails else "holds"
         for eid, why in fails:
             rep.failing_input({"stream": "witness", "finding": fid, "why": why, "config": P["config"],
-                               "files": G.render_project(P), "entity": eid}, classify(P, eid, why))
+                               "files": G.render_project(P), "entity": eid}, classify(P, eid, why, mode=oracle_mode(why)))
 
 
 # --------------------------------------------------------------------------- entry point
@@ -1034,12 +1310,13 @@ def run(tier: str, seed: int, replay: str | None = None) -> int:
     with common.scratch_dir() as d:
         (d / "p").mkdir()
         variant = prune_stream(ford, drv, rng, n_prune, rep, stats, d / "p",
-                               lrng=random.Random(seed * 15485863 + 23))
+                               lrng=random.Random(seed * 15485863 + 23), xrng=random.Random(seed * 49979687 + 31))
         replay_witnesses(ford, rep, d / "p", variant, stats)
         replay_link_witnesses(ford, rep, d / "p", stats)
         t0 = time.time()
         e2e_stream(ford, drv, random.Random(seed * 104729 + 11), n_e2e, rep, stats, d, variant,
-                   graphs=not quick, workers=workers, lrng=random.Random(seed * 32452843 + 29))
+                   graphs=not quick, workers=workers, lrng=random.Random(seed * 32452843 + 29),
+                   xrng=random.Random(seed * 67867967 + 37))
         stats["e2e_wall_s"] = round(time.time() - t0, 1)
     rep.coverage.update(
         evaluations=ev_micro + stats.get("prune_cases", 0) + stats["e2e_cases"],
@@ -1056,6 +1333,7 @@ def run(tier: str, seed: int, replay: str | None = None) -> int:
         link_histogram=dict(sorted(stats.get("link_hist", {}).items())),
         link_oracle_failures=stats.get("link_oracle_failures", 0),
         e2e_link_occurrences=stats.get("e2e_links_seen", 0),
+        e2e_pages_compared_tracer_by_tracer=stats.get("e2e_pages_compared", 0),
         variant_discriminating_cases=stats.get("discriminating"),
         entities_generated=stats["entities"],
         entities_removed_by_prune=stats["dropped"],
@@ -1073,7 +1351,9 @@ def run(tier: str, seed: int, replay: str | None = None) -> int:
         "permissions are inputs (C04 decides them); the generator spells them explicitly and checks FORD parsed the same",
         "a procedure displayed by a selected binding / generic interface / final procedure counts as part of that entity's description (its doc and dummy arguments may appear there even if the procedure itself is private)",
         "templates (Jinja2), Markdown and the search indexer are on the implementation side only; the model predicts which tracer words occur on the site, not where on a page",
-        "block data, common blocks, namelists, type extension are not generated",
+        "round 3: block data units, common blocks (members moved out of the parent's variables), namelists (module / submodule / program / procedure level), interface bodies inside generic interfaces, declared function results and type extension (same scoping unit) are generated; they carry no `[[...]]` links, and members of extended types are neither link sources nor targets (FORD resolves those through the declaring type: not modelled)",
+        "the variables a selected namelist groups, and the members a selected extending type inherits (under the display options in force in the extending type), count as part of that entity's description",
+        "a common block has no accessibility of its own (FORD's 'public' is not a declared accessibility): `display` cannot deselect it, `hide_undoc` and `proc_internals` can",
         "doc links: names are unique in a generated project (no shadowing between scopes); the Lean model resolves the bare `[[name]]` form, `[[name(entity)]]` and `[[parent:name]]` are generated for the oracle only; links to types declared inside procedures (no URL: FORD raises) are not generated; interface bodies are subroutines",
         "the model's page test (`checksPage`) stands for `visible` of the page owner; the equivalence is checked by the exact comparison of `visible` flags and page lists",
     ]
